@@ -100,7 +100,7 @@ def check_encode(chk, prog, env):
                                 'alg=%s: returns 0 without storing a token' % env.aname(alg)))
             if r != 0 and flag_of(s, jwt) != 1:
                 pass   # message-less failures are C14's subject
-    chk.rule('C03.encode-signs', 'jwt_encode returns a token for alg != none only after jwt_sign() == 0', n, bad, floor=60)
+    chk.rule('C03.encode-signs', 'jwt_encode returns a token for alg != none only after jwt_sign() == 0', n, bad, floor=32)
 
 
 def run(chk, prog, tier):
